@@ -3,6 +3,7 @@ package main
 // Translation of one activation's SSA blocks.
 
 import (
+	"sort"
 	"fmt"
 	"go/constant"
 	"go/token"
@@ -314,6 +315,7 @@ func (fr *Frame) loopHead(li *loopInfo, b *ssa.BasicBlock, phis []*ssa.Phi, pred
 				invs = append(invs, c)
 			}
 		}
+		invs = append(invs, fc.globalInvs()...)
 	}
 	// values on entry
 	entryPhi := map[*ssa.Phi]Val{}
@@ -402,6 +404,33 @@ func (fr *Frame) loopHead(li *loopInfo, b *ssa.BasicBlock, phis []*ssa.Phi, pred
 	return nst
 }
 
+// globalInvs: the global invariants that apply to the function under verification (not to lemmas and harnesses).
+func (fc *FnCtx) globalInvs() []*Clause {
+	if fc.spec == nil || fc.spec.Lemma || fc.spec.Harness || fc.relMode {
+		return nil
+	}
+	var out []*Clause
+	for _, c := range fc.g.specs.Invariants {
+		if fc.modeOK(c) {
+			out = append(out, c)
+		}
+	}
+	return out
+}
+
+// assumeGlobalInvs: after a call the global invariants hold again (every function under contract is checked to
+// re-establish them; code without a contract and library code is assumed not to break them).
+func (fr *Frame) assumeGlobalInvs(st *State, g string, b *ssa.BasicBlock) {
+	fc := fr.fc
+	if !fr.isTop {
+		return
+	}
+	for _, c := range fc.globalInvs() {
+		env := fr.specEnv(st, nil, nil)
+		fc.assume(sImp(g, env.bool(c.Expr)), "global invariant "+c.Site+" after a call")
+	}
+}
+
 func sanitize(s string) string {
 	return strings.Map(func(r rune) rune {
 		if r >= 'a' && r <= 'z' || r >= 'A' && r <= 'Z' || r >= '0' && r <= '9' || r == '_' {
@@ -431,8 +460,8 @@ func (fr *Frame) backEdge(b, h *ssa.BasicBlock, cond string, st *State) {
 	}
 	env := fr.specEnv(st, h, over)
 	env.loopPre = li.preSt
-	for _, c := range fc.spec.Invs {
-		if c.Loop != li.ord || !fc.modeOK(c) {
+	for _, c := range append(append([]*Clause(nil), fc.spec.Invs...), fc.globalInvs()...) {
+		if (c.Kind != "global-invariant" && c.Loop != li.ord) || !fc.modeOK(c) {
 			continue
 		}
 		f := env.bool(c.Expr)
@@ -503,10 +532,9 @@ func (fr *Frame) lookupLocal(name string, st *State, at *ssa.BasicBlock, phiOver
 		}
 		return Val{T: types.NewArray(tBool, 0), S: st.get(best.vis)}, true
 	}
-	if name == "$k" {
-		// iterations completed by the innermost enclosing slice-range loop
-		var bestP *ssa.Phi
-		var bestB *ssa.BasicBlock
+	if name == "$k" || name == "$k2" {
+		// iterations completed by the innermost ($k) / second innermost ($k2) enclosing slice-range loop
+		var cands []*ssa.Phi
 		for _, b := range fr.fn.Blocks {
 			if !(b == at || b.Dominates(at)) {
 				continue
@@ -516,15 +544,22 @@ func (fr *Frame) lookupLocal(name string, st *State, at *ssa.BasicBlock, phiOver
 				if !ok {
 					break
 				}
-				if p.Comment == "rangeindex" && (bestB == nil || bestB.Dominates(b)) {
+				if p.Comment == "rangeindex" {
 					// the block must still be inside that loop
 					if li := fr.loopOf[b]; li != nil && (li.blocks[at] || b == at) {
-						bestP, bestB = p, b
+						cands = append(cands, p)
 					}
 				}
 			}
 		}
-		if bestP != nil {
+		// innermost first: a header that is dominated by another candidate's header lies inside it
+		sort.Slice(cands, func(i, j int) bool { return cands[j].Block().Dominates(cands[i].Block()) && cands[i].Block() != cands[j].Block() })
+		idx := 0
+		if name == "$k2" {
+			idx = 1
+		}
+		if idx < len(cands) {
+			bestP := cands[idx]
 			v := fr.vals[bestP]
 			if o, ok := phiOver[bestP]; ok {
 				v = o
@@ -907,7 +942,9 @@ func (fr *Frame) instr(in ssa.Instruction, b *ssa.BasicBlock, st *State) *State 
 		}
 		return st
 	case *ssa.Call:
-		return fr.call(x, x.Common(), b, st, g)
+		nst := fr.call(x, x.Common(), b, st, g)
+		fr.assumeGlobalInvs(nst, g, b)
+		return nst
 	case *ssa.Defer:
 		if fr.inLoop(b) {
 			fr.unsupported(in, "defer in loop")
@@ -927,6 +964,7 @@ func (fr *Frame) instr(in ssa.Instruction, b *ssa.BasicBlock, st *State) *State 
 			// conditional execution under d.guard
 			before := st
 			after := fr.call(d.instr, d.instr.Common(), b, st, sAnd(g, d.guard))
+			fr.assumeGlobalInvs(after, sAnd(g, d.guard), b)
 			if d.guard == g || d.block.Dominates(b) {
 				st = after
 			} else {
